@@ -117,8 +117,43 @@ func (o *c07) onBuilt(n int, ref *blockRef) {
 		if d.Sign() < 0 {
 			what = "destroyed"
 		}
-		r.Report("tokens-not-conserved", "after block %d (periodEnd=%v) %v LU were %s: total=%v genesis=%v | now %s escrow=%v | before %s",
-			n, periodEnd, new(big.Int).Abs(d), what, total, o.total0, m, s.escrow, o.prevM)
+		// The class says where the difference shows, judged from independent observations only
+		// (so that a known cause can be told from a new one):
+		//  - tokens created in a block with refund-earning calls, within what the refunds are worth;
+		//  - dust (< 10^12 LU) destroyed at a period end in which a validator record was deleted;
+		//  - an amount destroyed at a period end that the House role pool can have held (at most
+		//    its content before the block plus the block's reward inflow) while House validators
+		//    are online;
+		//  - anything else.
+		class := "tokens-not-conserved"
+		abs := new(big.Int).Abs(d)
+		deleted, onlineHouse := 0, 0
+		for _, b := range o.prev.rawVals {
+			if findVal(v.rawVals, b.MainAddress()) == nil {
+				deleted++
+			}
+			if b.Role == params.RoleHouse && b.IsOnline() {
+				onlineHouse++
+			}
+		}
+		housePool := new(big.Int)
+		if st, e := o.prev.st.GetValidatorsStat(); e == nil {
+			housePool = st.GetByRole(params.RoleHouse).GetRewardsDistributable()
+		}
+		inflow := new(big.Int).Add(hdr.GasRewards, hdr.Subsidy)
+		inflow.Add(inflow, o.prevM.residue)
+		switch {
+		case d.Sign() > 0 && ref.refundCap.Sign() > 0 && abs.Cmp(ref.refundCap) <= 0:
+			// tokens appeared in a block that contains calls earning an EVM gas refund, and no
+			// more than those refunds can be worth (a refund is capped at half the gas used)
+			class = "gas-refund-minted"
+		case d.Sign() < 0 && periodEnd && deleted > 0 && abs.Cmp(big.NewInt(1e12)) < 0:
+			class = "dust-destroyed-when-validator-deleted"
+		case d.Sign() < 0 && periodEnd && onlineHouse > 0 && abs.Cmp(new(big.Int).Add(housePool, inflow)) <= 0:
+			class = "house-pool-rewards-destroyed"
+		}
+		r.Report(class, "after block %d (periodEnd=%v) %v LU were %s: total=%v genesis=%v | validators deleted in this block=%d, online House validators before=%d, House pool before=%v, reward inflow of the block=%v | now %s escrow=%v | before %s",
+			n, periodEnd, abs, what, total, o.total0, deleted, onlineHouse, housePool, inflow, m, s.escrow, o.prevM)
 		// re-base, so that one leak is reported once and later leaks are still seen
 		o.total0 = total
 	}
@@ -144,6 +179,15 @@ func (o *c07) onBuilt(n int, ref *blockRef) {
 		r.Probe("penalty-paid")
 	}
 	if !periodEnd {
+		// (3b) fees: outside period ends nothing but gas, the subsidy, detained stakes and
+		// penalties moves account balances in total, so what all accounts together lost to
+		// gas is measurable from the raw balances, and it must be what the header declares
+		debited := new(big.Int).Sub(o.prevM.balances, m.balances) // total decrease of balances
+		debited.Sub(debited, hdr.Subsidy).Sub(debited, ref.detained).Add(debited, penInc)
+		if debited.Cmp(hdr.GasRewards) != 0 {
+			r.Report("fees-debited-ne-gas-rewards", "block %d: all accounts together paid %v LU for gas (Σ balances went %v -> %v, subsidy %v, detained stakes %v, penalties %v) but header.GasRewards=%v enters the reward flow (difference %v; refund-earning calls in the block are worth at most %v)",
+				n, debited, o.prevM.balances, m.balances, hdr.Subsidy, ref.detained, penInc, hdr.GasRewards, new(big.Int).Sub(hdr.GasRewards, debited), ref.refundCap)
+		}
 		staked := new(big.Int).Add(o.prevM.tokens, o.prevM.unfinished)
 		staked.Sub(staked, m.tokens).Sub(staked, m.unfinished)
 		if staked.Cmp(penInc) != 0 {
@@ -160,7 +204,7 @@ func (o *c07) onBuilt(n int, ref *blockRef) {
 	o.prev, o.prevM = v, m
 
 	// the same identity on a verifying node that is reopened from disk every few blocks
-	if o.im != nil {
+	if o.im != nil && ref.tainted == "" {
 		o.follow(n, ref)
 	}
 }
@@ -306,11 +350,15 @@ func (o *c07) settlements(n int, v *headView, hdr *types.Header) {
 		sumBefore := new(big.Int).Add(b.RewardsDistributable, o.prev.balance(b.Coinbase))
 		sumAfter := new(big.Int).Add(rdAfter, v.balance(b.Coinbase))
 		if sumBefore.Cmp(sumAfter) != 0 {
-			what := "settled"
+			what, class := "settled", "rewards-lost-in-settlement"
+			diff := new(big.Int).Sub(sumAfter, sumBefore)
 			if a == nil {
 				what = "deleted"
+				if diff.Sign() < 0 && diff.CmpAbs(big.NewInt(1e12)) < 0 {
+					class = "residue-lost-when-validator-deleted"
+				}
 			}
-			r.Report("rewards-lost-in-settlement", "block %d: validator %s (no delegations, not the proposer) was %s: RewardsDistributable %v -> %v but its reward address %s went %v -> %v (difference %v)",
+			r.Report(class, "block %d: validator %s (no delegations, not the proposer) was %s: RewardsDistributable %v -> %v but its reward address %s went %v -> %v (difference %v)",
 				n, o.name(addr), what, b.RewardsDistributable, rdAfter, o.name(b.Coinbase), o.prev.balance(b.Coinbase), v.balance(b.Coinbase), new(big.Int).Sub(sumAfter, sumBefore))
 		}
 	}
